@@ -443,7 +443,8 @@ def census():
                 while j < len(body) and depth:
                     depth += {"<": 1, ">": -1}.get(body[j], 0)
                     j += 1
-                key = (rel, q + (" const" if cst else ""), norm_ty(body[m.end():j - 1]))
+                cls = q.rsplit("::", 1)[0] if "::" in q else ""
+                key = (rel, cls, q + (" const" if cst else ""), norm_ty(body[m.end():j - 1]))
                 casts[key] = casts.get(key, 0) + 1
                 n_cc += 1
         if n_cc != len(re.findall(r"\bconst_cast\s*<", t)):
@@ -515,7 +516,7 @@ def census():
                 key = q
                 if users.get(key) != "w":
                     users[key] = f
-        out_statics.append((e["file"], cls, name, sorted("%s:%s" % (q, f) for q, f in users.items())))
+        out_statics.append((e["file"], cls, name, sorted(users.items())))
 
     owners = []
     for fac, member, cls, hdr in OWNERS:
@@ -544,12 +545,12 @@ def gen_thr():
     o.append("From Coq Require Import String List.\nImport ListNotations.\nOpen Scope string_scope.\n\n")
     o.append("(* (file, class, member) *)\nDefinition census_mutable : list (string * string * string) :=\n  [ ")
     o.append(";\n    ".join("(%s, %s, %s)" % (coq_str(a), coq_str(b), coq_str(n)) for a, b, n in c["mutables"]))
-    o.append(" ].\n\n(* (file, enclosing function [const], target type, occurrences) *)\n"
-             "Definition census_constcast : list (string * string * string * nat) :=\n  [ ")
-    o.append(";\n    ".join("(%s, %s, %s, %d)" % (coq_str(k[0]), coq_str(k[1]), coq_str(k[2]), n) for k, n in c["casts"]))
-    o.append(" ].\n\n(* (file, class or \"\", name, functions mentioning the object; :w = direct-write pattern, :m = other mention) *)\n"
-             "Definition census_static : list (string * string * string * list string) :=\n  [ ")
-    o.append(";\n    ".join("(%s, %s, %s, [%s])" % (coq_str(f), coq_str(cl), coq_str(n), "; ".join(coq_str(u) for u in us))
+    o.append(" ].\n\n(* (file, class of the enclosing function, enclosing function [const], target type, occurrences) *)\n"
+             "Definition census_constcast : list (string * string * string * string * nat) :=\n  [ ")
+    o.append(";\n    ".join("(%s, %s, %s, %s, %d)" % (coq_str(k[0]), coq_str(k[1]), coq_str(k[2]), coq_str(k[3]), n) for k, n in c["casts"]))
+    o.append(" ].\n\n(* (file, class or \"\", name, functions mentioning the object with flag w = direct-write pattern, m = other mention) *)\n"
+             "Definition census_static : list (string * string * string * list (string * string)) :=\n  [ ")
+    o.append(";\n    ".join("(%s, %s, %s, [%s])" % (coq_str(f), coq_str(cl), coq_str(n), "; ".join("(%s, %s)" % (coq_str(q), coq_str(fl)) for q, fl in us))
                             for f, cl, n, us in c["statics"]))
     o.append(" ].\n\n(* (file, function, name) *)\nDefinition census_localstatic : list (string * string * string) :=\n  [ ")
     o.append(";\n    ".join("(%s, %s, %s)" % (coq_str(a), coq_str(b), coq_str(n)) for a, b, n in c["lstatics"]))
